@@ -11,10 +11,14 @@ from multiprocessing import Process
 
 import windpyutils.parallel.own_proc_pools as opp
 import windpyutils.parallel.pools as pools
+import windpyutils.parallel.maps as maps
+import windpyutils.parallel.workers as workers_mod
+from windpyutils.parallel.maps import mul_p_map
 from windpyutils.parallel.own_proc_pools import BaseFunctorWorker, FunctorPool, FactoryFunctorPool, FunctorWorkerFactory
 
 from vf.bmc.intrinsics import (v_param, v_input, v_assert, v_out_is_identity, v_out_is_chunked_permutation,
-                               v_queue_payload_free, v_mon_inc, v_mon_get, v_fault, v_thread_done)
+                               v_queue_payload_free, v_mon_inc, v_mon_get, v_fault, v_thread_done, v_next_worker,
+                               v_queue_has_no_none)
 from vf.bmc.values import CInt
 
 
@@ -50,6 +54,19 @@ class LifeWorker(IdWorker):
         if v_fault("functor_raises"):
             raise ValueError("functor failed")
         return x
+
+
+class SpareFactory(FunctorWorkerFactory):
+    """Factory handing out pre-built workers (initial ones first, then spares): the VM needs a finite table of objects."""
+
+    def __init__(self, ctx, wcls, quota, total):
+        self.all = [wcls(ctx, quota) for _ in range(total)]
+        for k, wk in enumerate(self.all):
+            wk._vf_name = "fworker%d" % k
+        self.next = 0
+
+    def create(self):
+        return v_next_worker(self)
 
 
 def ident(x):
@@ -152,6 +169,26 @@ def scenario_pool_kth_call(pool, cs, nmax, unordered, max_tokens):
         v_assert(v_queue_payload_free(pool._work_queue), "invariant-no-work-left-between-calls")
 
 
+def scenario_factory_call(pool, cs, nmax, max_tokens):
+    """FactoryFunctorPool with a chunk quota: one call (optionally after stale wake-up tokens of earlier calls)."""
+    n = v_param("n", 0, nmax)
+    stale = v_param("stale_tokens", 0, max_tokens)
+    out = []
+    with pool:
+        for _ in range(stale):
+            try:
+                pool._results_queue.put((None, None), False)
+            except queue.Full:
+                pass
+        for x in pool.imap(v_input(n), cs):
+            out.append(x)
+        v_assert(v_out_is_identity(out, n), "factory-call-results-equal-map")
+        v_assert(not pool._sending_work, "invariant-sending-work-false-after-call")
+        v_assert(v_queue_payload_free(pool._results_queue), "invariant-no-result-left-between-calls")
+        v_assert(v_queue_payload_free(pool._work_queue), "invariant-no-work-left-between-calls")
+        v_assert(v_queue_has_no_none(pool._replace_queue), "invariant-no-stop-token-left-in-replace-queue")
+
+
 def scenario_fmap(fm, cs, nmax, calls):
     n = v_param("n", 0, nmax)
     out = []
@@ -166,6 +203,13 @@ def scenario_fmap(fm, cs, nmax, calls):
                 out2.append(x)
             v_assert(v_out_is_identity(out2, n2), "second-call-results-equal-map")
     v_assert(v_queue_payload_free(fm._results_queue), "no-result-left-in-queue")
+
+
+def scenario_mulpmap(workers, nmax):
+    n = v_param("n", 0, nmax)
+    out = mul_p_map(ident, v_input(n), workers)
+    v_assert(v_out_is_identity(out, n), "mul_p_map-results-equal-map")
+    v_assert(v_queue_payload_free(workers_mod.FunRunner.RESULTS_QUEUE), "no-result-left-in-queue")
 
 
 # ------------------------------------------------------------------------------------------------ set-up
@@ -228,6 +272,36 @@ def make(cfg, ctx, mode, ctrl=None, restore=None):
         if calls == 1:
             return {"scenario": scenario_pool_one_call, "args": (pool, CInt(cs), CInt(nmax), cfg.get("api", "imap") == "imap_unordered"), "info": info}
         return {"scenario": scenario_pool_two_calls, "args": (pool, CInt(cs), CInt(nmax), cfg.get("api", "imap") == "imap_unordered"), "info": info}
+    if kind == "factory":
+        quota = cfg.get("quota", 1)
+        spares = cfg.get("spares", 1)
+        wcls = IdWorker
+        if mode == "replay":
+            from vf.bmc import replay as rp
+            wcls = rp.gate_process_class(ctrl, IdWorker)
+            saved = opp.threading
+            opp.threading = rp.FakeThreading(ctx)
+            restore.append(lambda: setattr(opp, "threading", saved))
+            rp.patch_thread_class(ctrl, opp.CMThread, restore)
+        fac = SpareFactory(ctx, wcls, quota, workers + spares)
+        pool = FactoryFunctorPool(workers, fac, context=ctx, work_queue_maxsize=cfg.get("wq", 1.0), results_queue_maxsize=cfg.get("rq", None))
+        mt = cfg.get("max_tokens", 0)
+        if mode == "model":
+            chunk = _chunk_shape(cs)
+            pool._work_queue.elem = ("O", ("t", "i", chunk))
+            pool._work_queue.cap = (pool._work_queue.maxsize or (nchunks + workers)) + 2
+            pool._results_queue.elem = ("t", ("O", "i"), ("O", chunk))
+            pool._results_queue.cap = (pool._results_queue.maxsize or (nchunks + 1 + mt)) + 1
+            pool._replace_queue.elem = ("O", "i")
+            pool._replace_queue.cap = spares + workers + 2
+            info["publication_functions"] = ["_init_process"]
+        else:
+            from vf.bmc import replay as rp
+            rp.gate_attributes(ctrl, pool, cfg.get("gated_attrs", ["_sending_work", "_data_cnt"]), "FactoryFunctorPool#0")
+            pool.procs = rp.GatedList(ctrl, pool.procs, "list0")
+        info["list_caps"].update({("scenario_factory_call", "out"): max(nmax, 1), ("chunking", "ch"): cs,
+                                  ("_get_results", "chunks"): max(nchunks + 1 + mt, 1), ("_get_results", "indexes"): max(nchunks + 1 + mt, 1)})
+        return {"scenario": scenario_factory_call, "args": (pool, CInt(cs), CInt(nmax), CInt(mt)), "info": info}
     if kind == "fmap":
         saved_q = pools.Queue
         pools.Queue = lambda maxsize=0: ctx.Queue(maxsize)
@@ -250,4 +324,23 @@ def make(cfg, ctx, mode, ctrl=None, restore=None):
                 wk.__class__ = G
         info["list_caps"].update({("scenario_fmap", "out"): max(nmax, 1), ("scenario_fmap", "out2"): max(nmax, 1), ("chunking", "ch"): cs})
         return {"scenario": scenario_fmap, "args": (fm, CInt(cs), CInt(nmax), CInt(calls)), "info": info}
+    if kind == "mulpmap":
+        FR = workers_mod.FunRunner
+        saved = (FR.WORK_QUEUE, FR.RESULTS_QUEUE)
+        FR.WORK_QUEUE = ctx.Queue(cfg.get("wq", 2))
+        FR.RESULTS_QUEUE = ctx.Queue()
+        if mode == "model":
+            FR.WORK_QUEUE.elem = ("O", ("t", "i", ("L", 1, "i")))
+            FR.WORK_QUEUE.cap = (cfg.get("wq", 2)) + 1
+            FR.RESULTS_QUEUE.elem = ("t", "i", ("L", 1, "i"))
+            FR.RESULTS_QUEUE.cap = nmax + 1
+        else:
+            from vf.bmc import replay as rp
+            G = rp.gate_process_class(ctrl, FR)
+            saved_cls = maps.FunRunner
+            maps.FunRunner = G
+            restore.append(lambda: setattr(maps, "FunRunner", saved_cls))
+            restore.append(lambda: (setattr(FR, "WORK_QUEUE", saved[0]), setattr(FR, "RESULTS_QUEUE", saved[1])))
+        info["list_caps"].update({("mul_p_map", "res"): max(nmax, 1), ("mul_p_map", "procs"): workers})
+        return {"scenario": scenario_mulpmap, "args": (CInt(workers), CInt(nmax)), "info": info}
     raise ValueError(kind)
